@@ -258,3 +258,25 @@ Definition py_float_isfinite (r : string) : bool :=
 (* {k: v for ...}: later pairs overwrite earlier ones, the first insertion fixes the position *)
 Definition py_dict_of_pairs {K V} (eqb : K -> K -> bool) (l : list (K * V)) : list (K * V) :=
   fold_left (fun d kv => py_dict_set eqb d (fst kv) (snd kv)) l [].
+
+(* ---- set objects (aliasing): a store of sets; a value of type set is an index into it ---- *)
+Definition py_store := list (list lfeat).
+Definition py_store_get (st : py_store) (r : nat) : list lfeat := nth r st [].
+(* s.add(x): nothing when an equal element is present *)
+Definition py_set_add (eqb : lfeat -> lfeat -> bool) (s : list lfeat) (x : lfeat) : list lfeat :=
+  if existsb (fun y => eqb y x) s then s else s ++ [x].
+Definition py_set_of (eqb : lfeat -> lfeat -> bool) (l : list lfeat) : list lfeat :=
+  fold_left (py_set_add eqb) l [].
+Fixpoint py_store_add (eqb : lfeat -> lfeat -> bool) (st : py_store) (r : nat) (x : lfeat) : py_store :=
+  match st, r with
+  | [], _ => []
+  | s :: rest, O => py_set_add eqb s x :: rest
+  | s :: rest, S r' => s :: py_store_add eqb rest r' x
+  end.
+
+(* re.fullmatch(r'[A-Za-z][A-Za-z0-9_]*', s) is not None *)
+Definition py_is_identifier (s : string) : bool :=
+  match s with
+  | EmptyString => false
+  | String c r => is_alpha c && str_forallb is_safechar r
+  end.
